@@ -54,6 +54,18 @@ Round 4:
     returned dict), repr, the registers.bin packer, one instruction stepped FROM it (`CPUStepper.step` /
     `CPU.step_snapshot`) -- and must restore the same values into a fresh register file before and after; the same
     snapshot object is applied several times.
+
+Round 5:
+  * LIFECYCLE.  "reset": the register file's own reset verb on the object in use (`LlamaState::reset()`; Python
+    re-creates its register file) -- the history goes on writing and reading the SAME object.  The model returns to
+    the fresh state; every name is read right after the reset and after the following writes / round trips.
+  * NAMES ACROSS THE SNAPSHOT BOUNDARY.  "load {NAME: v}": a snapshot built from explicit named values
+    (`CPURegistersSnapshot(pc=.., temps={n: v})` / a `{"TEMPn": v}` map for `apply_registers`) is applied to a fresh
+    register file, which must read v under NAME.  "collect": the snapshot's dictionary form (`to_dict()` /
+    `collect_registers`) must list under every name what the same register file reads under that name.  Generators put
+    pairwise distinct non-zero values into (subsets of) all 14 TEMPs.
+  * WRITE ORDER inside an overlap group: whole register, an alias alone, the whole register again with an equal /
+    equal-after-truncation / different value (complete sweep over BA, I, F).
 """
 
 from __future__ import annotations
@@ -94,9 +106,18 @@ RULE = ("histories of by-name writes (A,B,BA,IL,IH,I,X,Y,U,S,PC,F,FC,FZ,TEMP0..1
         "registers.bin packer, one instruction stepped from the snapshot; operand = another live snapshot or the "
         "current file) between taking and (repeatedly) applying them; complete sweeps kind x register x start state, "
         "access x unknown name, observer x operand x register changed, plus seeded histories mixing all of it. "
+        "Round 5: the register file's lifecycle verb as an op (LlamaState::reset() on the SAME object, which is then "
+        "written and read on; Python: a re-created Registers/CPU/machine) with the model returning to the fresh state; "
+        "snapshots BUILT from named values (CPURegistersSnapshot(temps={n: v}, ..) / a name->value map for "
+        "apply_registers) applied to a fresh file; the snapshot's dictionary form (to_dict / collect_registers) held "
+        "against the reads of the same file name by name, with pairwise distinct non-zero values in the TEMPs; "
+        "complete sweeps: flag/alias/TEMP write x reset x every write target, whole-register / alias / whole-register "
+        "write order inside BA, I, F with an equal, equal-after-truncation or different second value, TEMP subsets x "
+        "rotations for the named forms; seeded histories mixing them with round trips. "
         "Non-trivial = the history writes a sub-register after "
         "a full-register write of the same register (or vice versa), or interleaves F/FC/FZ(/flag API) writes, "
-        "and reads that register afterwards; or applies a snapshot whose source register file changed after the "
+        "and reads that register afterwards; or resets a register file that held non-zero values and reads it "
+        "back; or carries a non-zero TEMP2..13 by name across the snapshot boundary; or applies a snapshot whose source register file changed after the "
         "snapshot was taken, or that was observed since; or reads registers back after an executed instruction / a "
         "write to a Rust-only name / a rejected operation; "
         "distinct = hash of the op list.")
@@ -420,6 +441,21 @@ def _py_roundtrip(host: _PyHost, blob: bool) -> Tuple[_PyHost, str]:
     return fresh, n
 
 
+LOAD_NAMES: Tuple[str, ...] = ("PC", "BA", "I", "X", "Y", "U", "S", "F") + TEMP_NAMES
+
+
+def _py_load(host: _PyHost, values: Dict[str, int]) -> _PyHost:
+    """A snapshot BUILT from explicit named values (the public dataclass constructor, as the .pcsnap loader, the
+    parity tools and Rust-produced snapshots build it: `temps={n: v}` is TEMPn) applied to a fresh register file."""
+    core = {n.lower(): int(v) for n, v in values.items() if not n.startswith("TEMP")}
+    temps = {int(n[4:]): int(v) for n, v in values.items() if n.startswith("TEMP")}
+    core.setdefault("pc", 0)
+    snap = host.api["Snapshot"](temps=temps, **core)
+    fresh = host.fresh()
+    fresh.apply(snap, True)
+    return fresh
+
+
 def _py_exec(host: _PyHost, hexbytes: str, seed: int) -> Optional[str]:
     """One instruction at PC through the CPU facade; the bytes are placed at PC in the hash-filled memory."""
     from ..pycore import canon
@@ -531,6 +567,14 @@ def py_run(ops: Sequence[Op]) -> List[Any]:
                 out.append(int(regs.get_flag(op[1])))
             elif verb == "all":
                 out.append(_py_read_all(regs, api))
+            elif verb == "reset":
+                # Python has no in-place reset of a register file: the idiom (Emulator.__init__, CPU.__init__) is a
+                # brand-new `Registers()`; the host object of the same kind is re-created
+                host = host.fresh()
+                out.append(_py_read_all(host.regs, api))
+            elif verb == "load":
+                host = _py_load(host, op[1])
+                out.append(_py_read_all(host.regs, api))
             elif verb in ("rt", "rtb") or (verb == "rtf" and host.emu is None):
                 before = _py_read_all(regs, api)
                 host, n = _py_roundtrip(host, verb != "rt")
@@ -610,7 +654,7 @@ def py_run(ops: Sequence[Op]) -> List[Any]:
             elif verb == "host":
                 out.append(None)
             elif verb == "collect":
-                out.append(dict(api["Snapshot"].from_registers(regs).to_dict()))
+                out.append({"dict": dict(host.snapshot(True).to_dict()), "reads": _py_read_all(regs, api)})
             else:
                 raise HarnessError(f"unknown op {op}")
         except HarnessError:
@@ -666,7 +710,10 @@ def _rs_obs(obs: List[Any], key: str) -> Tuple[List[Any], List[Any]]:
         elif isinstance(o, list):                       # get / getflag: [st, rt]
             out.append(o[idx])
             xout.append(None)
-        elif "st" in o:                                 # read-all (also "snap") / collect
+        elif "collect" in o:                            # the snapshot map + the reads at that moment
+            out.append({"dict": o["collect"][key], "reads": o["reads"][key]})
+            xout.append(None)
+        elif "st" in o:                                 # read-all (also "snap", "reset", "load")
             out.append(o[key])
             xout.append(o["x"][key] if "x" in o else None)
         else:                                           # round trips, apply, exec: several read-alls
@@ -752,6 +799,7 @@ def walk_model(ops: Sequence[Op], detailed: bool = True,
     slots: List[Any] = [None] * SLOTS   # live snapshots: model state at the time they were taken
     file_no = 0                      # which register file is current (changes when a fresh one replaces it)
     n_exec = 0
+    resets = 0
     pending_x: Optional[str] = None  # label waiting for the next full read-back
 
     def exp_of(name: str) -> Any:
@@ -828,6 +876,55 @@ def walk_model(ops: Sequence[Op], detailed: bool = True,
             note_read([FLAG_NAME[op[1]]])
             out.append(exp_of(FLAG_NAME[op[1]]))
             xout.append(None)
+        elif verb == "reset":
+            # lifecycle verb: the SAME register file object is returned to the fresh state and used on
+            before = m.read_all()
+            all_written("reset")
+            m.store = {g: 0 for g in MEMBERS}
+            m.temp_raw = {t: 0 for t in TEMP_NAMES}
+            m.x = {n: (0,) for n in XNAMES}
+            for n in XNAMES:
+                xwriter[n] = "reset"
+            last_kind.clear()
+            pending_nt.clear()
+            labels.append("lifecycle:reset")
+            fbits = before[INDEX["F"]] & 3
+            labels.append("lifecycle:reset:" + ("flags-were-set" if fbits else "flags-were-clear"))
+            if any(before):
+                labels.append("lifecycle:reset:registers-nonzero")
+                pending_x = "nt:written-to-and-read-back-after-reset"
+            if snaps:
+                labels.append("lifecycle:reset-of-a-restored-file")
+                since = since or "core"
+            resets += 1
+            out.append(exp_all())
+            xout.append({"all": xexp()})
+        elif verb == "load":
+            vals = dict(op[1])
+            all_written("loading a snapshot built from named values")
+            m.store = {g: 0 for g in MEMBERS}
+            m.temp_raw = {t: 0 for t in TEMP_NAMES}
+            m.x = {n: (0,) for n in XNAMES}
+            for n in LOAD_NAMES:          # the order the fields are applied in does not matter: no two overlap
+                if n in vals:
+                    m.set(n, int(vals[n]))
+            for n in XNAMES:
+                xwriter[n] = "applying a snapshot to a fresh file"
+            last_kind.clear()
+            pending_nt.clear()
+            nz = [n for n in TEMP_NAMES if m.get(n)]
+            labels.append("names:load")
+            labels.append("names:load:nonzero-TEMPs:%s" % (len(nz) if len(nz) < 3 else "3+"))
+            if any(int(n[4:]) >= 2 for n in nz):
+                nt = True
+                labels.append("nt:named-TEMP2+-across-the-snapshot-boundary")
+            if resets:
+                labels.append("lifecycle:load-after-reset")
+            file_no += 1
+            snaps += 1
+            since = None
+            out.append(exp_all())
+            xout.append({"all": xexp()})
         elif verb in ("all", "rt", "rtb", "rtf"):
             note_read(NAMES)
             out.append(exp_all())
@@ -970,6 +1067,12 @@ def walk_model(ops: Sequence[Op], detailed: bool = True,
         elif verb == "collect":
             out.append(("collect", m.read_all()))
             xout.append(None)
+            nz = [n for n in TEMP_NAMES if m.get(n)]
+            labels.append("names:collect")
+            labels.append("names:collect:nonzero-TEMPs:%s" % (len(nz) if len(nz) < 3 else "3+"))
+            if any(int(n[4:]) >= 2 for n in nz):
+                nt = True
+                labels.append("nt:named-TEMP2+-across-the-snapshot-boundary")
         else:
             raise HarnessError(f"unknown op {op}")
     return out, xout, labels, nt
@@ -1000,8 +1103,11 @@ def _impl_ok(ops: Sequence[Op], exp: List[Any], xexp: List[Any], obs: List[Any],
             elif verb in ("get", "getflag"):
                 if o != e:
                     return False
-            elif verb in ("all", "snap"):
+            elif verb in ("all", "snap", "reset", "load"):
                 if o != e or (x is not None and not _x_ok(xexp[i]["all"], x)):
+                    return False
+            elif verb == "collect":
+                if "error" in o or _dict_mismatches(o["dict"], o["reads"]):
                     return False
             elif verb in ("rt", "rtb", "rtf"):
                 if o["before"] != e or o["after"] != e:
@@ -1150,6 +1256,24 @@ def _frame(names: Sequence[str], before: Sequence[int], after: Sequence[int]) ->
     return out
 
 
+NAMED_SYMPTOM = "the fresh register file does not read the value the snapshot holds under that name"
+DICT_SYMPTOM = "the snapshot lists a different value under that name than the register file reads"
+
+
+def _dict_mismatches(d: Any, reads: Sequence[int]) -> List[Tuple[str, int, int]]:
+    """(name, value listed in the snapshot's dictionary form, value the register file reads) for every snapshot
+    register (8 full registers + TEMPn) whose entry differs; Python keys the core registers in lower case and omits
+    zero TEMPs, the Rust map is keyed "PC".."TEMP13"."""
+    out: List[Tuple[str, int, int]] = []
+    if not isinstance(d, dict):
+        return [("PC", -1, -1)]
+    for n in LOAD_NAMES:
+        v = d.get(n, d.get(n.lower(), 0))
+        if v != reads[INDEX[n]]:
+            out.append((n, v, reads[INDEX[n]]))
+    return out
+
+
 REJECT_SYMPTOM = "an operation that was rejected changed the register file"
 NO_NAME_SYMPTOM = "an access that names no register changed the register file"
 
@@ -1199,6 +1323,23 @@ def check_impl(impl: str, ops: Sequence[Op], exp: List[Any], xexp: List[Any], ob
             if verb == "snap":
                 kinds[int(op[1])] = "blob" if op[2] == "b" else "direct"
                 good.pop(int(op[1]), None)
+        elif verb == "reset":
+            out += _check_all(impl, e, o, case, i, op, notes)
+            if x is not None:
+                out += _check_x(impl, xe["all"], x, case, i, op)
+        elif verb == "load":
+            for n, want, got in _frame(NAMES, [ee.value for ee in e], o):
+                out.append(Violation("names", f"{impl} snapshot built from named values: {_fp_name(n)}", NAMED_SYMPTOM,
+                                     case, f"op#{i} {op}: the snapshot holds {n} = {want:#x}; applied to a fresh "
+                                           f"register file, {impl} reads {n} = {got:#x}"))
+            if x is not None and not out:
+                out += _check_x(impl, xe["all"], x, case, i, op)
+        elif verb == "collect":
+            if isinstance(o, dict) and "dict" in o:
+                for n, listed, read in _dict_mismatches(o["dict"], o["reads"]):
+                    out.append(Violation("names", f"{impl} snapshot dictionary: {_fp_name(n)}", DICT_SYMPTOM, case,
+                                         f"op#{i} {op}: {impl} reads {n} = {read:#x}, the snapshot taken at that "
+                                         f"moment lists {n} = {listed:#x}"))
         elif verb in ("badload", "badname"):
             out += _check_all(impl, e, o["before"], case, i, op, notes)
             if x is not None:
@@ -1301,7 +1442,7 @@ def check_temp_diff(ops: Sequence[Op], all_obs: Dict[str, List[Any]], case: Dict
         verb = op[0]
         if verb == "get" and op[1].startswith("TEMP"):
             return [(op[1], o)]
-        if verb in ("all", "snap") and isinstance(o, list):
+        if verb in ("all", "snap", "reset", "load") and isinstance(o, list):
             return [(n, o[INDEX[n]]) for n in TEMP_NAMES]
         if verb in ("rt", "rtb", "rtf", "apply") and isinstance(o, dict) and "after" in o:
             return [(n, o["after"][INDEX[n]]) for n in TEMP_NAMES]
@@ -1336,7 +1477,8 @@ def _to_dict_labels(ops: Sequence[Op], exp: List[Any], py: List[Any]) -> List[st
     for i, op in enumerate(ops):
         if op[0] == "collect" and i < len(py) and i < len(exp) and isinstance(py[i], dict) and "error" not in py[i]:
             vals = exp[i][1]
-            same = all(py[i].get(k.lower()) == vals[INDEX[k]] for k in ("PC", "BA", "I", "X", "Y", "U", "S", "F"))
+            same = all(py[i].get("dict", {}).get(k.lower()) == vals[INDEX[k]]
+                       for k in ("PC", "BA", "I", "X", "Y", "U", "S", "F"))
             out.append("py-to_dict:" + ("matches-reads" if same else "differs-from-reads"))
     return out
 
@@ -1792,6 +1934,141 @@ def round4_sequences(seed: int, shard: int, n: int) -> List[List[Op]]:
     return out
 
 
+# --------------------------------------------------------------------------------------------------------
+# Round 5: lifecycle verbs, names across the snapshot boundary, write order inside an overlap group
+# --------------------------------------------------------------------------------------------------------
+
+LIFE_FIRST: Tuple[str, ...] = ("F", "FC", "FZ", "flag:C", "flag:Z", "A", "IH", "X", "TEMP0", "TEMP13")
+ORDER_GROUPS: Tuple[Tuple[str, Tuple[str, ...]], ...] = (("BA", ("A", "B")), ("I", ("IL", "IH")),
+                                                         ("F", ("FC", "FZ", "flag:C", "flag:Z")))
+
+
+def _temp_value(k: int, salt: int) -> int:
+    """A non-zero 24-bit value that is different for every TEMP number (and for every salt 0..15)."""
+    return ((0x010203 * (k + 1)) ^ ((salt & 0xF) << 20) ^ 0x0C0000) & 0xFFFFFF or 0x00FFFF
+
+
+def _load_values(st: Stream) -> Dict[str, int]:
+    """Named values of a snapshot that is built, not collected: a generated subset of the 8 full registers and the
+    14 TEMPs, every value inside the register's width, TEMP values pairwise distinct and non-zero."""
+    vals: Dict[str, int] = {}
+    salt = st.below(16)
+    dense = st.chance(1, 2)
+    for n in LOAD_NAMES:
+        if n.startswith("TEMP"):
+            if dense or st.chance(1, 3):
+                vals[n] = _temp_value(int(n[4:]), salt)
+        elif st.chance(1, 2):
+            v = st.choice(BOUNDARY) if st.chance(1, 2) else st.u32()
+            vals[n] = v & mask(n)
+    return vals
+
+
+def sweep_round5_cases(tier: str) -> Iterator[Tuple[str, List[Op]]]:
+    """Complete enumerations added in round 5 (family label, ops)."""
+    variants = (0, 1) if tier == "quick" else (0, 1, 2)
+    k = 0
+    # (a) lifecycle: the SAME register file is reset and used on; every write target after the reset
+    firsts = (1, 0xFFFFFFFF) if tier == "quick" else (1, 2, 0xFFFFFFFF, 0xA5A5A5A5)
+    for variant in variants:
+        pre = _prefill(variant)
+        for t1 in LIFE_FIRST:
+            for v1 in firsts:
+                for t2 in SWEEP_TARGETS:
+                    for v2 in (0, 0xFFFFFFFF):
+                        k += 1
+                        yield "sweep:lifecycle", pre + [_write_op(t1, v1), ["all"], ["reset"], _write_op(t2, v2),
+                                                        ["all"], ["rt" if k % 2 else "rtb"], ["all"], ["reset"],
+                                                        _write_op(t2, v2 ^ 0xFFFFFFFF), ["all"]]
+    # (b) write order inside an overlap group: whole register, then an alias alone, then the whole register again
+    #     with the same / an equal-after-truncation / a different value
+    wholes = (0, 1, 3, 0xA5A5A5A5) if tier == "quick" else (0, 1, 2, 3, 0xFF, 0xA5A5A5A5, 0x5A5A5A5A, 0xFFFFFFFF)
+    for variant in variants:
+        pre = _prefill(variant)
+        for g, subs in ORDER_GROUPS:
+            for v in wholes:
+                for sub in subs:
+                    for sv in (0, 1, 0xFF):
+                        for v2 in (v, v ^ 0x80000000, v ^ 1, v ^ 2):
+                            k += 1
+                            yield "sweep:write-order", pre + [["set", g, v], ["all"], _write_op(sub, sv), ["all"],
+                                                              ["set", g, v2], ["all"], ["rt" if k % 2 else "rtb"],
+                                                              ["all"]]
+    # (c) names across the snapshot boundary: distinct non-zero values in (subsets of) the TEMPs, the snapshot's
+    #     dictionary form held against the reads, and a snapshot built from named values applied to a fresh file
+    for variant in variants:
+        pre = _prefill(variant)
+        for r in range(len(TEMP_NAMES)):
+            for mode in range(4):
+                k += 1
+                order = TEMP_NAMES[r:] + TEMP_NAMES[:r]
+                chosen = (order, order[::2], order[:1], order[1:])[mode]
+                writes: List[Op] = [["set", t, _temp_value(int(t[4:]), r)] for t in chosen]
+                vals = {t: _temp_value(int(t[4:]), r + 5) for t in (order[1:], order[:1], order[::2], order)[mode]}
+                vals.update({"PC": 0x12345, "BA": 0xBEEF, "F": 0x83} if mode % 2 else {"X": 0xABCDE, "I": 0x1234})
+                head: List[Op] = [["host", "cpu"]] if k % 3 == 0 else []
+                yield "sweep:names", head + pre + writes + [["collect"], ["all"], ["load", vals], ["collect"], ["all"],
+                                                            ["rt" if k % 2 else "rtb"], ["collect"], ["all"]]
+
+
+def round5_sequences(seed: int, shard: int, n: int) -> List[List[Op]]:
+    """Seeded histories around the register file's *lifecycle* (reset of the same object, then more writes) and
+    *names across the snapshot boundary* (snapshot dictionary vs reads, snapshots built from named values), mixed
+    with ordinary round trips, one deferred snapshot and -- on the CPU facade -- executed NOPs."""
+    out: List[List[Op]] = []
+    for j in range(n):
+        st = Stream(seed, 0xC08, 0x5E5, shard, j)
+        flavour = st.below(10)      # 0-5 plain Registers, 6-7 CPU facade, 8 CPU facade + exec, 9 machine (files)
+        ops: List[Op] = [["host", "cpu"]] if 6 <= flavour <= 7 else []
+        if st.chance(1, 3):
+            ops += _prefill(1 + st.below(2))
+        if st.chance(1, 2):
+            salt = st.below(16)
+            start = st.below(len(TEMP_NAMES))
+            for t in (TEMP_NAMES[start:] + TEMP_NAMES[:start])[:1 + st.below(len(TEMP_NAMES))]:
+                ops.append(["set", t, _temp_value(int(t[4:]), salt)])
+        snapped = False
+        for _ in range(2 + st.below(5)):
+            for _ in range(1 + st.below(4)):
+                k = st.below(4)
+                v = st.choice(BOUNDARY) if k < 2 else st.u32() if k == 2 else st.u32() & 0xFFFF
+                r = st.below(20)
+                if r < 5:
+                    ops.append(["set", st.choice(MEMBERS["F"]), v])
+                elif r < 7:
+                    ops.append(["setflag", st.choice(("C", "Z")), v])
+                elif r < 11:
+                    ops.append(["set", st.choice(TEMP_NAMES), v])
+                elif r < 18:
+                    ops.append(["set", st.choice(CORE_NAMES), v])
+                else:
+                    ops.append(["set", st.choice(XNAMES + WNAMES), v])
+            r = st.below(12)
+            if r < 4:
+                ops.append(["reset"])
+            elif r < 6:
+                ops.append(["load", _load_values(st)])
+            elif r < 8:
+                ops.append(["collect"])
+                ops.append(["all"])
+            elif r < 9:
+                ops.append(["rt"])
+            elif r < 10:
+                ops.append(["rtf"] if flavour == 9 else ["rtb"])
+            elif r < 11:
+                if snapped:
+                    ops.append(["apply", 0, "peek" if st.chance(1, 2) else "replace"])
+                else:
+                    ops.append(["snap", 0, "d"])
+                    snapped = True
+            else:
+                ops.append(["exec", NOP, st.u32()] if flavour == 8 else ["all"])
+        ops.append(["collect"])
+        ops.append(["all"])
+        out.append(ops)
+    return out
+
+
 def _hyp_sequences(seed: int, n: int, min_ops: int = 1) -> List[List[Op]]:
     import hypothesis
     from hypothesis import HealthCheck, given, settings, strategies as st
@@ -1826,8 +2103,12 @@ def _hyp_sequences(seed: int, n: int, min_ops: int = 1) -> List[List[Op]]:
         st.tuples(st.just("badname"), st.sampled_from(BAD_ACCESS), st.sampled_from(BAD_NAMES), value),
         st.tuples(st.just("badload"), bad_kind),
         st.tuples(st.just("rtf"), bad_kind))
+    load_ = st.tuples(st.just("load"),
+                      st.dictionaries(st.sampled_from(LOAD_NAMES), value, max_size=10).map(
+                          lambda d: {k: v & mask(k) for k, v in d.items()}))
     other = st.one_of(st.tuples(st.just("get"), name), st.tuples(st.just("getflag"), flag), st.just(("all",)),
-                      snap, snap, st.just(("collect",)), take, apply_, apply_, exec_, observe_, refused)
+                      snap, snap, st.just(("collect",)), take, apply_, apply_, exec_, observe_, refused,
+                      st.just(("reset",)), load_)
     op = st.one_of(write, write, other)
     seqs: List[List[Op]] = []
 
@@ -1907,8 +2188,12 @@ def stream_sequences(seed: int, shard: int, n: int) -> List[List[Op]]:
                                else ["rtf", st.choice(BAD_KINDS)])
             elif r < 78:
                 ops.append(["getflag", st.choice(("C", "Z"))])
-            elif r < 84:
+            elif r < 82:
                 ops.append(["all"])
+            elif r < 83:
+                ops.append(["reset"])
+            elif r < 84:
+                ops.append(["load", _load_values(st)] if st.chance(1, 2) else ["collect"])
             elif r < 87:
                 ops.append(["rt"])
             elif r < 89:
@@ -2001,6 +2286,12 @@ def _shard_inner(task: Tuple[str, int, int, int, str, int]) -> Report:
         items = [(fam, ops) for k, (fam, ops) in enumerate(sweep_round4_cases(tier)) if k % nshards == shard]
         eval_batch(items, rep)
         rep.extra["sweep_round4_cases"] = len(items)
+    elif kind == "round5":
+        eval_batch([("round5", ops) for ops in round5_sequences(seed, shard, n)], rep)
+    elif kind == "sweep5":
+        items = [(fam, ops) for k, (fam, ops) in enumerate(sweep_round5_cases(tier)) if k % nshards == shard]
+        eval_batch(items, rep)
+        rep.extra["sweep_round5_cases"] = len(items)
     elif kind == "sweep3":
         items = [(fam, ops) for k, (fam, ops) in enumerate(sweep_round3_cases(tier)) if k % nshards == shard]
         eval_batch(items, rep)
@@ -2034,6 +2325,7 @@ def run(ctx: Ctx) -> Report:
     n_gen_shards = 16
     n_def = ctx.pick(120, 600)
     n_r4 = ctx.pick(60, 300)
+    n_r5 = ctx.pick(50, 250)
     tasks: List[Tuple[str, int, int, int, str, int]] = []
     for i in range(n_sweep):
         tasks.append(("sweep", i, n_sweep, ctx.seed, ctx.tier, 0))
@@ -2044,6 +2336,8 @@ def run(ctx: Ctx) -> Report:
         tasks.append(("deferred", i, n_gen_shards, mix32(0xC08, ctx.seed, 0xDEFE), ctx.tier, n_def))
         tasks.append(("sweep4", i, n_gen_shards, ctx.seed, ctx.tier, 0))
         tasks.append(("round4", i, n_gen_shards, mix32(0xC08, ctx.seed, 0x0B5E), ctx.tier, n_r4))
+        tasks.append(("sweep5", i, n_gen_shards, ctx.seed, ctx.tier, 0))
+        tasks.append(("round5", i, n_gen_shards, mix32(0xC08, ctx.seed, 0x5E5E), ctx.tier, n_r5))
     for i in range(n_hyp_shards):
         # not ctx.shard_seed(i): mix32(seed, i, ..) xors seed and i before mixing, so small seeds would only
         # permute one set of shard seeds (seed 1 shard 1 == seed 2 shard 2); mix the run seed in first.
@@ -2065,6 +2359,7 @@ def run(ctx: Ctx) -> Report:
     rep.extra["generation_sequences"] = n_gen_shards * n_gen
     rep.extra["deferred_sequences"] = n_gen_shards * n_def
     rep.extra["round4_sequences"] = n_gen_shards * n_r4
+    rep.extra["round5_sequences"] = n_gen_shards * n_r5
     rep.extra["rejected_load_kinds"] = list(BAD_KINDS)
     rep.assumptions = [
         "pointer registers X, Y, U, S are 20 bits as the property statement says (the README table says 24)",
@@ -2113,6 +2408,16 @@ def run(ctx: Ctx) -> Report:
         "CPU.step_snapshot taking it as input) are read-only uses: what the snapshot restores into a brand-new "
         "Registers() (`apply_to`) / LlamaState (`apply_registers`) must be the same before and after; what the "
         "observers return (diff contents, step results) is not asserted; an observer that raises is not a verdict",
+        "lifecycle: LlamaState::reset() returns the register file to the fresh state -- after it every name reads 0 "
+        "and later writes behave as on LlamaState::new() (reset() is `regs.clear()` plus call-stack / power-state "
+        "clearing; the statement's 'last value written' law continues from there on the same object).  Python has "
+        "no in-place reset of `Registers`; its idiom is a new object, which is what the op does there.  "
+        "CPU.power_on_reset / CoreRuntime::power_on_reset (documented to KEEP registers and flags) are not generated",
+        "named forms of a snapshot: CPURegistersSnapshot's fields pc, ba, .., f and temps[n] / the keys PC, BA, .., "
+        "F, TEMPn of the collect_registers map / the keys of to_dict() name the registers PC, BA, .., F, TEMPn; values "
+        "of a built snapshot are generated inside each register's width (24 bits for TEMPn, both code tables); the "
+        "dictionary form is compared with reads of the SAME register file at the same moment (absent TEMP = 0); "
+        "call_sub_level and any other key are ignored",
         "Python == model and Rust == model imply Python == Rust; a separate differential verdict exists only "
         "for TEMP values",
     ]
